@@ -6,5 +6,6 @@ pub mod fw;
 pub mod iso;
 pub mod par;
 pub mod sched;
+pub mod stcore;
 pub mod x3;
 pub mod x2;
